@@ -284,7 +284,7 @@ HistOK(r) ==
 (* lists <<live bytes after the request, bytes delivered so far, depth>>   *)
 (* for every request that raised the live total.                           *)
 (***************************************************************************)
-Allowance == 1048576
+Allowance == 65536
 RECURSIVE MaxSz(_, _, _)
 \* largest in-memory size of any node of the type (named types resolved once)
 MaxSz(E, ty, fuel) ==
